@@ -293,9 +293,15 @@ func VerifC04_Stream() {
 // and members appear in ascending key order.
 func VerifC04_Sort() {
 	o := &ojg.Options{Sort: true, HTMLUnsafe: true}
-	if vx.Choose("layout", 2) == 1 {
+	layout := vx.Choose("layout", 6) // tight, Indent 2, streamed tight, streamed Indent 2, streamed Tab, Tab
+	switch layout {
+	case 1, 3:
 		o.Indent = 2
+	case 4, 5:
+		o.Tab = true
 	}
+	streamed := layout == 2 || layout == 3 || layout == 4
+	vx.Key("layout", layout)
 	plain := func() string {
 		b := vx.Byte("k")
 		vx.Assume(vx.And(vx.And('0' <= b, b <= 'z'), b != '\\'))
@@ -310,7 +316,16 @@ func VerifC04_Sort() {
 	ref := wr.JSON(mk())
 	vx.MapOrders(true)
 	wr2 := oj.Writer{Options: *o}
-	out := wr2.JSON(mk())
+	var out string
+	if streamed {
+		rec := &recorder{}
+		if err := wr2.Write(rec, mk()); err != nil {
+			vx.Fail("stream-write-error")
+		}
+		out = string(rec.data)
+	} else {
+		out = wr2.JSON(mk())
+	}
 	vx.MapOrders(false)
 	vx.Observe("out", out)
 	vx.Assert("sorted-output-is-deterministic", len(out) == len(ref) && vx.StrEq(out, ref))
